@@ -2,6 +2,8 @@ import CryoCat.Drv.Proto
 import CryoCat.Model.C17
 import CryoCat.Model.C17_Wedge
 import CryoCat.Model.C17_Load
+import CryoCat.Model.C17_Ext
+import CryoCat.Model.C17_Code
 import CryoCat.Lemmas.C17_Mdoc
 import CryoCat.Lemmas.C17_ParseWF
 namespace CryoCat.Drv.C17
@@ -43,10 +45,14 @@ def leRat (a b : Rat) : Bool := decide (a ≤ b)
 /-- one step of an operation sequence on an Mdoc object -/
 def step (m : Mdoc) (j : Json) : Option Mdoc :=
   match getStr? j "k" with
-  | some "sort" => if (getBool? j "reset").getD false then some (sortByTilt true m) else Op.apply .sort m
+  | some "sort" => if (getBool? j "reset").getD Gen.C17.sortResetDefault then some (sortByTilt true m) else Op.apply .sort m
   | some "remove" =>
     match getArr? j "idxs" >>= parseInts with
-    | some idxs => Op.apply (.remove idxs ((getBool? j "kept_only").getD true)) m
+    | some idxs =>
+      -- `from1` present: the console-level `mdoc.remove_images(path, idx, numbered_from_1)` (indices_load, then kept_only default)
+      match getBool? j "from1" with
+      | some f1 => removeImagesScript f1 idxs m
+      | none => Op.apply (.remove idxs ((getBool? j "kept_only").getD Gen.C17.removeKeptOnlyDefault)) m
     | none => none
   | _ => none
 
@@ -55,18 +61,23 @@ def handleMdoc (j : Json) : Json :=
   | none => err "bad-args"
   | some lines =>
     let steps := ((getArr? j "steps").getD #[]).toList
-    let wr := (getBool? j "write_removed").getD false
-    let parsed := parseMdoc lines
+    let wr := (getBool? j "write_removed").getD Gen.C17.writeRemovedDefault
+    let parsed := parseMdocX lines
     let after := steps.foldl (fun (acc : Option Mdoc) s => acc.bind (fun m => step m s)) parsed
     let written := after.map (printMdoc wr)
-    let reread := written.bind parseMdoc
+    let reread := written.bind parseMdocX
     let fresh := parsed.map (printMdoc true)
     Json.mkObj [("parsed", optJ mdocJ parsed), ("after", optJ mdocJ after),
+                -- is the text read by the strict model the theorems are about, and if nothing reads it: does the code raise or is
+                -- the text of a named class outside the quantifier?
+                ("strict", Json.bool (parseMdoc lines).isSome),
+                ("why", match parsed with | some _ => Json.null | none => Json.str (whyNone lines).name),
+                ("reset_hits_section", optJ (fun m => Json.bool (resetHitsSection m)) parsed),
                 ("text_ok", Json.bool (textOk lines)),
                 ("wf", optJ (fun m => Json.bool (wfb m)) parsed), ("wf_after", optJ (fun m => Json.bool (wfb m)) after),
                 ("kept", optJ (fun m => listJ rowJ (keptImages m)) after),
                 ("written", optJ (listJ sJ) written), ("reread", optJ mdocJ reread),
-                ("fresh_written", optJ (listJ sJ) fresh), ("fresh_reread", optJ mdocJ (fresh.bind parseMdoc)),
+                ("fresh_written", optJ (listJ sJ) fresh), ("fresh_reread", optJ mdocJ (fresh.bind parseMdocX)),
                 ("dose", optJ (listJ ratJ) (parsed.bind mdocDose)),
                 ("tilts", optJ (fun m => listJ ratJ (mdocTilts false m)) parsed),
                 ("tilts_sorted", optJ (fun m => listJ ratJ (mdocTilts true m)) parsed)]
@@ -90,7 +101,9 @@ def parseTomo (j : Json) : Option (Tomo Rat) :=
   let md : Option Mdoc := (getArr? j "mdoc" >>= parseStrs) >>= parseMdoc
   let tilts : Option (List Rat) := match j.getObjVal? "mdoc" with
     | .ok _ => md.map (mdocTilts Gen.C17.tltSortsByDefault)
-    | .error _ => ((j.getObjVal? "tilts").toOption >>= parseRats).map (tltLoad leRat Gen.C17.tltSortsByDefault)
+    | .error _ => ((j.getObjVal? "tilts").toOption >>= parseRats).map
+        -- `as_given`: the tilts are passed as an ARRAY, which `tlt_load` returns unsorted
+        (tltLoad leRat (Gen.C17.tltSortsByDefault && !((getBool? j "as_given").getD false)))
   let dose : Option (Option (List Rat)) := match getBool? j "dose_from_mdoc" with
     | some true => (md >>= mdocDose).map some
     | _ => (j.getObjVal? "dose").toOption >>= parseOptRats
@@ -105,6 +118,15 @@ def parseTomo (j : Json) : Option (Tomo Rat) :=
 def handleDefocus (j : Json) : Json :=
   match getStr? j "kind", getArr? j "rows" >>= parseCtfRows with
   | some kind, some rs => listJ defocusJ (readDefocus kind rs)
+  | _, _ => err "bad-args"
+
+/-- `gctf_read` at code level: the STAR table's numeric columns in FILE order -/
+def handleGctfCode (j : Json) : Json :=
+  match getArr? j "cols" >>= (fun a => a.toList.mapM (fun x => match x with | Json.str s => some s | _ => none)),
+        (j.getObjVal? "cells").toOption >>= (fun x => match x with | Json.arr a => a.toList.mapM parseRats | _ => none) with
+  | some cols, some rows =>
+    Json.mkObj [("out", optJ (listJ defocusJ) (gctfReadCode Gen.C17.angToMicronGctf Gen.C17.meanDivisor cols rows)),
+                ("spec", optJ (listJ defocusJ) ((getArr? j "rows" >>= parseCtfRows).map (readDefocus "gctf")))]
   | _, _ => err "bad-args"
 
 def wrowJ (r : WedgeRow Rat) : Json :=
@@ -126,9 +148,24 @@ def handleWedge (j : Json) : Json :=
       then tomoOrder Gen.C17.tltSortsByDefault tomos0 else tomos0
     let c : Consts Rat := { pixelSize := px, voltage := vo, ampContrast := am, cs := cs }
     let rows := wedgeBatch c tomos
+    -- code level: the tables of the batch function in THEIR row order, look-ups by tomogram number, np.repeat, values[0][0]
+    let parseTab {β : Type} (k : String) (f : Json → Option β) : Option (List (Int × β)) :=
+      getArr? j k >>= (fun a => a.toList.mapM (fun r => match r with
+        | Json.arr #[i, v] => (match i.getInt?.toOption, f v with | some i, some v => some (i, v) | _, _ => none)
+        | _ => none))
+    let bin : BatchIn Rat :=
+      { ids := tomos.map (·.id),
+        dimTable := (parseTab "dim_table" parseRats).getD (tomos.map (fun t => (t.id, [t.dimX, t.dimY, t.dimZ]))),
+        zTable := (parseTab "z_table" parseRat).getD (tomos.map (fun t => (t.id, t.zShift))),
+        files := tomos.map (fun t => (t.id, (t.tilts, t.defocus, t.dose))) }
+    let rowsCode := wedgeBatchCode c bin
     let hasCtf := tomos.any (fun t => t.defocus.isSome)
     let hasDose := tomos.any (fun t => t.dose.isSome)
     Json.mkObj [("rows", optJ (listJ wrowJ) rows),
+                ("rows_code", optJ (listJ wrowJ) rowsCode),
+                ("code_eq_spec", Json.bool (rowsCode == rows)),
+                ("single_code", listJ (fun t => optJ (listJ wrowJ) (wedgeSingleCode c
+                    { id := t.id, dims := [[t.dimX, t.dimY, t.dimZ]], zTable := [[t.zShift]], tilts := t.tilts, defocus := t.defocus, dose := t.dose })) tomos),
                 ("single", listJ (fun t => optJ (listJ wrowJ) (wedgeSingle c t)) tomos),
                 ("header", listJ (fun (s : String) => Json.str s) (wedgeHeader hasCtf hasDose)),
                 ("em", optJ (listJ emJ) (wedgeEm leRat (tomos.map (fun t => (t.id, t.tilts))))),
@@ -198,6 +235,7 @@ def handle (j : Json) : Json :=
   | some "defocus_in" => handleDefocusIn j
   | some "mdoc" => handleMdoc j
   | some "defocus" => handleDefocus j
+  | some "gctf_code" => handleGctfCode j
   | some "wedge" => handleWedge j
   | some "tlt" => handleTlt j
   | _ => err "bad-op"
